@@ -662,3 +662,276 @@ def check_c05(res):
         leaf = ["double %s" % l.encode().hex() for l in lits[:800]]
         correspond(res, cfg, "prod", leaf, label="parse_double")
         res.sample({"cfg": cfg, "literal": lits[7]})
+
+
+# =============================================================================== C06
+def c06_bodies(rnd, cfg, n):
+    clj = cfg[0] == "1"
+    out = []
+    esc_ok = [b"\\n", b"\\t", b"\\r", b"\\\\", b'\\"']
+    esc_clj = [b"\\f", b"\\b", b"\\u0041", b"\\u00e9", b"\\u20AC", b"\\uD7FF", b"\\uE000", b"\\101", b"\\7", b"\\377", b"\\400", b"\\08", b"\\u0000", b"\\0"]
+    esc_bad = [b"\\x", b"\\a", b"\\ ", b"\\u12", b"\\uD800", b"\\uzzzz", b"\\8"]
+    for _ in range(n):
+        L = rnd.choice(list(range(0, 40)) + [47, 48, 49, 63, 64, 65, 100, 200, 300])
+        body = bytearray()
+        while len(body) < L:
+            k = rnd.random()
+            if k < 0.7:
+                body.append(rnd.choice(b"abcdefghijklmnopqrstuvwxyz 0123456789,;[]{}()#:/~\n\t") if rnd.random() < 0.9
+                            else rnd.choice([0x00, 0x7F, 0x80, 0xC3, 0xA9, 0xFF]))
+            elif k < 0.85:
+                body += rnd.choice(esc_ok)
+            elif k < 0.95:
+                body += rnd.choice(esc_clj)
+            else:
+                body += rnd.choice(esc_bad)
+        out.append(bytes(body))
+    return out
+
+
+@prop("C06")
+def check_c06(res):
+    rnd = random.Random(res.seed)
+    thorough = res.tier == "thorough"
+    res.rule = ("string literals of 0..300 bytes over content bytes (incl. NUL, 0x80..0xFF) and escapes (core, Clojure-only, "
+                "undefined), a quote/backslash at every offset of short literals, each followed by a different suffix "
+                "(closing context, more tokens, backslashes after the closing quote); get/get/equals histories; oracle: "
+                "Python unescape per configuration: exact bytes, exact length, NUL terminator, stable pointer, equals "
+                "helper agrees. non-trivial = distinct literal body")
+    for cfg in CFGS:
+        clj = cfg[0] == "1"
+        bodies = c06_bodies(rnd, cfg, 1500 if thorough else 500)
+        # a backslash or quote-escape at every offset of literals up to 36 bytes
+        for L in range(1, 37 if thorough else 20):
+            for off in range(L):
+                b = bytearray(b"a" * L)
+                b[off:off + 1] = b"\\n"
+                bodies.append(bytes(b))
+                b = bytearray(b"a" * L)
+                b[off:off + 1] = b'\\"'
+                bodies.append(bytes(b))
+        lines, meta = [], []
+        for body in bodies:
+            suffix = rnd.choice([b"", b" ", b" \\a", b'\\', b' "x\\\\y"', b"]", b" ;c\\\n"])
+            doc = b'"' + body + b'"' + suffix
+            lines.append(docline(doc))
+            meta.append(body)
+        impl, model = correspond(res, cfg, "san", lines, label="string-literals")
+        for body, ln, a in zip(meta, lines, impl):
+            res.nontrivial.add((cfg, body))
+            if is_crash(a):
+                res.violations.append(Violation("string-crash", ln, a, cfg))
+                continue
+            # body may contain an unescaped quote only via our generator? no: bodies never contain a bare quote
+            has_esc = b"\\" in body
+            want_dec = refs.unescape(body, clj)
+            res.count("esc" if has_esc else "plain")
+            if want_dec is None:
+                want_get = "NULL"
+                res.count("undefined-escape")
+            else:
+                want_get = "%d:%s" % (len(want_dec), hexs(want_dec))
+            want = "str:%d:%s:%s@0-%d" % (int(has_esc), hexs(body), want_get, len(body) + 2)
+            got = a[3:].split(" calls=")[0] if a.startswith("OK ") else a
+            if got != want:
+                if want_dec is not None and b"\x00" in want_dec and has_esc:
+                    kind = "decoded-nul-truncates-reported-length"
+                else:
+                    kind = "string-bytes-or-length-wrong"
+                res.violations.append(Violation(kind, ln, "body %r: implementation %s, expected %s" % (body[:40], got[:120], want[:120]), cfg))
+        # histories: get twice, equals helper
+        scripts, smeta = [], []
+        for body in rnd.sample(meta, 150 if thorough else 60):
+            dec = refs.unescape(body, clj)
+            if dec is None or b"\x00" in dec:
+                continue
+            doc = b'["' + body + b'"]'
+            other = dec + b"x"
+            scripts.append("script P0=%s;G0.0;Q0.0,%s;Q0.0,%s;G0.0;H0.0;G0.0" % (hexs(doc), hexs(dec), hexs(other)))
+            smeta.append((body, dec))
+        impl, model = correspond(res, cfg, "san", scripts, label="string-get-scripts")
+        for (body, dec), ln, a in zip(smeta, scripts, impl):
+            out = a.split(";")
+            want_g = "%d:%s" % (len(dec), hexs(dec))
+            if is_crash(a) or out[1] != want_g or out[2] != "1" or out[3] != "0" or out[4] != want_g or out[6] != want_g:
+                res.violations.append(Violation("string-get-unstable-or-equals-disagrees", ln, "%s (expected get %s)" % (a[:200], want_g[:60]), cfg))
+        res.sample({"cfg": cfg, "literal": lines[0][:120]})
+
+
+# =============================================================================== C10
+def c10_predictable(rnd, cfg, n):
+    """(document, acceptable error classes) for defects with a predictable outcome"""
+    clj, exp = cfg[0] == "1", cfg[1] == "1"
+    g = Gen(rnd.randrange(1 << 30), clj=clj, exp=exp)
+    out = []
+    openers = [(b"(", b")"), (b"[", b"]"), (b"{", b"}"), (b"#{", b"}")]
+
+    def valid_elems(k, kind):
+        if kind == b"{":
+            return b" ".join((":k%d %d" % (i, i)).encode() for i in range(k))
+        return b" ".join(str(100 + i).encode() for i in range(k))
+    for _ in range(n):
+        k = rnd.random()
+        op, cl = rnd.choice(openers)
+        cnt = rnd.randrange(0, 6)
+        if k < 0.15:        # unterminated at top level
+            out.append((op + valid_elems(cnt, op) + rnd.choice([b"", b" ", b"\n"]), {"UNTERMINATED_COLLECTION"}))
+        elif k < 0.25:      # unterminated nested
+            out.append((b"[1 " + op + valid_elems(cnt, op), {"UNTERMINATED_COLLECTION"}))
+        elif k < 0.4:       # mismatched closer
+            wrong = rnd.choice([c for c in (b")", b"]", b"}") if c != cl])
+            out.append((op + valid_elems(cnt, op) + wrong, {"UNMATCHED_DELIMITER"}))
+        elif k < 0.45:      # stray closer at top level
+            out.append((rnd.choice([b" ", b""]) + rnd.choice([b")", b"]", b"}"]) + b" 1", {"UNMATCHED_DELIMITER"}))
+        elif k < 0.55:      # odd map
+            out.append((b"{" + valid_elems(cnt, b"{") + b" :odd}", {"INVALID_SYNTAX"}))
+        elif k < 0.65:      # orphans at top level before EOF
+            out.append((rnd.choice([b"#foo", b"#foo ", b"#_", b"#_ ", b"#foo #_ 1", b"#_ #_ 1"]), {"UNEXPECTED_EOF"}))
+        elif k < 0.72:      # orphans before a closer
+            inner = rnd.choice([b"#foo", b"#_", b"#foo #_ 1"])
+            out.append((b"[1 " + inner + b"]", {"UNTERMINATED_COLLECTION", "INVALID_DISCARD", "UNEXPECTED_EOF", "INVALID_SYNTAX"}))
+        elif k < 0.78 and clj:
+            inner = rnd.choice([b"^", b"^:a", b"^{:a 1}", b"^:a ^:b"])
+            if rnd.random() < 0.5:
+                out.append((b"[1 " + inner + b"]", {"INVALID_SYNTAX", "UNTERMINATED_COLLECTION"}))
+            else:
+                out.append((inner, {"UNEXPECTED_EOF"}))
+        else:               # definitely-invalid tokens, alone or spliced into a collection
+            tok, cls = rnd.choice([(b"1x", "INVALID_NUMBER"), (b"1e", "INVALID_NUMBER"), (b"1.5e+", "INVALID_NUMBER"),
+                                   (b"12abc", "INVALID_NUMBER"), (b"\\", "INVALID_CHARACTER"), (b"\\u12", "INVALID_CHARACTER"),
+                                   (b"\\newlinex", "INVALID_CHARACTER"), (b"\\ ", "INVALID_CHARACTER"),
+                                   (b"::a", "INVALID_SYNTAX"), (b"a/", "INVALID_SYNTAX"), (b"/a", "INVALID_SYNTAX"),
+                                   (b":", "INVALID_SYNTAX"), (b":a/", "INVALID_SYNTAX"), (b"a::b", "INVALID_SYNTAX"),
+                                   (b'"abc', "INVALID_STRING"), (b'"abc\\', "INVALID_STRING"), (b"##Foo", "INVALID_SYNTAX"),
+                                   (b"##", "INVALID_SYNTAX"), (b"# foo", "INVALID_SYNTAX"), (b"#:foo 1", "INVALID_SYNTAX" if clj else None)])
+            if cls is None:
+                continue
+            if not clj and tok == b"01":
+                pass
+            if rnd.random() < 0.5 and not tok.startswith(b'"'):
+                out.append((b"[1 2 " + tok + b" 3]", {cls}))
+            else:
+                out.append((tok, {cls}))
+    if not clj:
+        out += [(b"01", {"INVALID_NUMBER"}), (b"-007", {"INVALID_NUMBER"}), (b"[00]", {"INVALID_NUMBER"})]
+    return out
+
+
+@prop("C10")
+def check_c10(res):
+    rnd = random.Random(res.seed)
+    thorough = res.tier == "thorough"
+    res.rule = ("(a) documents with one defect of predictable outcome (missing / wrong closer, odd map, orphan #tag / #_ / ^ before "
+                "EOF or closer, invalid number / character / identifier / string tokens, alone and spliced into collections): "
+                "must be rejected with NULL value, the documented class, a message; (b) value-xor-error on every string up "
+                "to length %d over a 24-symbol structural alphabet (exhaustive) and on random corruptions of generated "
+                "documents. non-trivial = distinct document" % (5 if thorough else 4))
+    alphabet = [b"(", b")", b"[", b"]", b"{", b"}", b"#", b"_", b"^", b":", b"/", b'"', b"\\", b";", b" ", b"\n", b"a", b"1",
+                b"-", b".", b"e", b",", b"N", b"0"]
+    import itertools
+    for cfg in CFGS:
+        cases = c10_predictable(rnd, cfg, 1200 if thorough else 500)
+        lines = [docline(d) for d, _ in cases]
+        impl, model = correspond(res, cfg, "san", lines, label="predictable-defects")
+        for (d, classes), ln, a in zip(cases, lines, impl):
+            res.nontrivial.add((cfg, d))
+            res.count("defect")
+            so = refs.split_obs(a)
+            if is_crash(a):
+                res.violations.append(Violation("malformed-crash", ln, a, cfg))
+            elif so[0] != "ERR":
+                res.violations.append(Violation("ill-formed-document-accepted", ln, "%r -> %s" % (d, a[:120]), cfg))
+            elif so[1] not in classes or so[2] == "nomsg":
+                res.violations.append(Violation("wrong-error-class:" + so[1], ln, "%r -> %s (expected %s)" % (d, a[:80], sorted(classes)), cfg))
+        # (b) xor invariant, exhaustive short strings: implementation only is fast; model on a sample
+        maxlen = 5 if thorough else 4
+        docs = []
+        for L in range(0, maxlen + 1):
+            if L == maxlen and not thorough and cfg not in ("00", "11"):
+                continue
+            for tup in itertools.product(alphabet, repeat=L):
+                docs.append(b"".join(tup))
+        lines = [docline(d) for d in docs]
+        impl = []
+        from concurrent.futures import ThreadPoolExecutor
+        parts = runner.shard(lines, 16)
+        with ThreadPoolExecutor(16) as ex:
+            for part in ex.map(lambda p: runner.run_impl(cfg, "prod", p), parts):
+                impl.extend(part)
+        res.evaluations += len(docs)
+        res.count("xor-exhaustive", len(docs))
+        for d, ln, a in zip(docs, lines, impl):
+            head = a.split(" ")[0]
+            if head in ("NEITHER", "BOTH") or is_crash(a) or (head == "ERR" and " nomsg " in a):
+                res.violations.append(Violation("value-xor-error-broken:" + head, ln, "%r -> %s" % (d, a[:100]), cfg))
+        sample = rnd.sample(lines, 3000 if thorough else 1200)
+        correspond(res, cfg, "san", sample, label="xor-sample")
+        g = Gen(rnd.randrange(1 << 30), clj=cfg[0] == "1", exp=cfg[1] == "1")
+        lines = [docline(g.corrupt(g.document(3))) for _ in range(1500 if thorough else 500)]
+        impl, model = correspond(res, cfg, "san", lines, label="corruptions")
+        for ln, a in zip(lines, impl):
+            head = a.split(" ")[0]
+            if head in ("NEITHER", "BOTH") or is_crash(a) or (head == "ERR" and " nomsg " in a):
+                res.violations.append(Violation("value-xor-error-broken:" + head, ln, a[:100], cfg))
+        res.sample({"cfg": cfg, "doc": cases[0][0].decode(errors="replace")})
+
+
+# =============================================================================== C01
+@prop("C01")
+def check_c01(res):
+    rnd = random.Random(res.seed)
+    thorough = res.tier == "thorough"
+    res.rule = ("generated, corrupted and truncated (at every offset) documents and raw random bytes, read (a) in the "
+                "ASan+UBSan -O1 build from exact-size heap buffers and (b) in the production -O2 -msse4.2 build with the "
+                "last input byte flush against a PROT_NONE page on PROT_READ pages, at every start phase mod 16, 4 flag "
+                "sets; then every accessor / equality / hash / lookup on the returned tree (script D, H, E, L, G); any "
+                "sanitizer report or signal is a violation; the model must predict the same result. non-trivial = distinct bytes")
+    for cfg in CFGS:
+        g = Gen(res.seed * 13 + int(cfg, 2), clj=cfg[0] == "1", exp=cfg[1] == "1")
+        docs = []
+        for _ in range(400 if thorough else 120):
+            docs.append(g.document(3))
+        for _ in range(300 if thorough else 100):
+            docs.append(g.corrupt(g.document(3)))
+        for _ in range(200 if thorough else 60):
+            docs.append(g.junk(g.r.randrange(1, 60)))
+        for _ in range(100 if thorough else 30):
+            docs.append(bytes(g.r.randrange(256) for _ in range(g.r.randrange(1, 80))))
+        # token families truncated at the buffer end
+        toks = [b'"abc\\n', b"\\u12", b"\\newlin", b"##In", b"##-In", b"#", b"#_", b"#:", b"#:a", b"1e", b"1.", b"1/", b"0x",
+                b"36r", b"-", b"+", b"^", b":", b"a/", b'"""\n abc', b'"""\n', b'"""', b"\\o7", b"\\", b"[", b"{:a", b"#{",
+                b"1234567", b"12345678", b"123456789012345678", b"0." + b"1" * 20, b"a" * 15, b"a" * 16, b"a" * 17,
+                b" " * 15 + b"x", b" " * 16, b" " * 17, b";" + b"c" * 15, b";" + b"c" * 16, b'"' + b"a" * 15, b'"' + b"a" * 16 + b"\\"]
+        docs += toks
+        # all truncations of some documents
+        for d in (docs[:40] if thorough else docs[:12]):
+            for i in range(1, len(d)):
+                docs.append(d[:i])
+        lines = []
+        for d in docs:
+            phase = g.r.randrange(16)
+            lines.append(docline(b" " * phase + d))
+        impl, model = correspond(res, cfg, "san", lines, label="sanitized")
+        for ln, a in zip(lines, impl):
+            res.nontrivial.add(ln)
+            res.count("san")
+            if is_crash(a):
+                res.violations.append(Violation("sanitizer-report:" + refs.crash_class(a), ln, a, cfg))
+        implg = runner.run_impl(cfg, "prod", lines, guard=True)
+        res.evaluations += len(lines)
+        for ln, a, b in zip(lines, implg, impl):
+            res.count("guard-page")
+            if is_crash(a):
+                res.violations.append(Violation("fault-at-guard-page", ln, a, cfg))
+            elif a != b and not is_crash(b):
+                res.violations.append(Violation("production-build-differs", ln, "%s vs %s" % (a[:120], b[:120]), cfg))
+        # accessors on the returned trees
+        scripts = []
+        for d in docs[: (300 if thorough else 100)]:
+            scripts.append("script P0=%s;P1=%s;D0;H0;E0,1;H1;E0,1;D0.0;H0.0;G0;G0.0;L0,1.0;K0,1;S0,1.0;W0,61;T0,61;D0.m;E0.0,1.0" % (hexs(d), hexs(d)))
+        impl, model = correspond(res, cfg, "san", scripts, label="accessors")
+        for ln, a in zip(scripts, impl):
+            res.count("accessors")
+            if is_crash(a):
+                res.violations.append(Violation("sanitizer-report-in-accessor:" + refs.crash_class(a), ln, a, cfg))
+        res.sample({"cfg": cfg, "doc": lines[3][:100]})
